@@ -374,6 +374,21 @@ func TestVerifC12(t *testing.T) {
 			ccs = append(ccs, cc{ref.B32(P.X), flip(ref.B32(P.Y), 255), "coordinate-class-off-curve:" + scls[i]})
 		}
 	}
+	// non-canonical encodings with a sparse distance from the bound, and valid coordinates split at the wrong place
+	if als, aerr := ref.SparseAliases(); aerr == nil {
+		for _, al := range als {
+			ccs = append(ccs, cc{al.X, al.Y, "non-canonical:" + al.Class})
+		}
+	} else {
+		r.Inconclusive("alias construction: " + aerr.Error())
+	}
+	for i := 0; i < hk.N(3, 12); i++ {
+		P := ref.BaseMulFast(randScalar(rng))
+		xy := append(ref.B32(P.X), ref.B32(P.Y)...)
+		for _, cut := range []int{0, 1, 16, 31, 33, 40, 63, 64} {
+			ccs = append(ccs, cc{xy[:cut], xy[cut:], "lengths-compensate"})
+		}
+	}
 	// points that are not on the curve but whose curve-equation defect sits in one limb / one byte only
 	for _, np := range ref.NearCurvePoints(rng.Bytes, hk.N(2, 8)) {
 		ccs = append(ccs, cc{ref.B32(np.X), ref.B32(np.Y), "off-curve:" + np.Class})
